@@ -494,6 +494,9 @@ func buildScript(seed uint64, p *ScriptPlan) (*built, error) {
 			o2.Exts[pair.EchIdx].Data = e.Bytes()
 		case "outer-ech-empty":
 			o2.Exts[pair.EchIdx].Data = nil // the extension is there, its body is gone
+		case "ech-empty-enc":
+			e.Enc = nil // well-formed, but a first hello must carry the encapsulated key
+			o2.Exts[pair.EchIdx].Data = e.Bytes()
 		case "ech-trailing":
 			// extra bytes inside the extension after the payload, lengths consistent
 			d := append([]byte(nil), o2.Exts[pair.EchIdx].Data...)
